@@ -191,6 +191,99 @@ def stores_of(repo, fields, nested):
     return out
 
 
+GENERIC_METHOD_NAMES = {"update", "add", "get", "copy", "items", "keys", "values", "append", "extend", "pop", "remove",
+                        "insert", "clear", "setdefault", "index", "count", "sort", "join", "format", "split", "strip",
+                        "replace", "startswith", "endswith", "lower", "upper", "encode", "decode", "write", "read", "close",
+                        "seek", "getvalue", "serialize", "deserialize", "parse", "set", "find", "findall", "bind", "subgraph"}
+
+
+def call_graph(repo):
+    """name-based static call graph over the package (over-approximate): qualname -> set of callee qualnames.
+    `x.m(...)` resolves to every method named m of the package's classes (except a list of generic container /
+    string method names, which resolve only when the receiver is `self`); `f(...)` to a module-level function,
+    a class (its __init__) or a nested function of that name; properties are resolved on attribute loads."""
+    by_method = {}
+    props = {}
+    top = {}
+    for q, fi in repo.funcs.items():
+        if fi.cls is not None and fi.parent is None:
+            if not (fi.node.name.startswith("__") and fi.node.name.endswith("__")):
+                by_method.setdefault(fi.node.name, set()).add(q)
+            if fi.is_property:
+                props.setdefault(fi.node.name, set()).add(q)
+        elif fi.parent is None:
+            top.setdefault(fi.node.name, set()).add(q)
+    for ci in repo.classes.values():
+        for al, nm in ci.aliases.items():
+            if nm in ci.methods:
+                by_method.setdefault(al, set()).add(ci.methods[nm].qualname)
+    g = {}
+    for q, fi in repo.funcs.items():
+        out = set()
+        nested = {x.node.name: x.qualname for x in repo.funcs.values() if x.parent is fi}
+        for n in ast.walk(fi.node):
+            if isinstance(n, ast.Call):
+                f = n.func
+                if isinstance(f, ast.Name):
+                    if f.id in nested:
+                        out.add(nested[f.id])
+                    out |= top.get(f.id, set())
+                    if f.id in repo.classes:
+                        init = repo.classes[f.id].lookup("__init__")
+                        if init is not None:
+                            out.add(init.qualname)
+                elif isinstance(f, ast.Attribute):
+                    if f.attr in GENERIC_METHOD_NAMES:
+                        if isinstance(f.value, ast.Name) and f.value.id == "self" and fi.cls is not None:
+                            m = fi.cls.lookup(f.attr)
+                            if m is not None:
+                                out.add(m.qualname)
+                        continue
+                    out |= by_method.get(f.attr, set())
+                    out |= top.get(f.attr, set())      # module.function(...)
+            elif isinstance(n, ast.Attribute) and isinstance(n.ctx, ast.Load) and n.attr in props:
+                out |= props[n.attr]
+        # comparison / hashing operators on model objects dispatch to __eq__/__hash__ (not followed: observers)
+        g[q] = out
+    return g
+
+
+def reach_scan(repo, entries, forbidden, cuts):
+    """functions reachable from `entries` without descending into `cuts`; -> list of (forbidden function, path)"""
+    g = call_graph(repo)
+    seen = {}
+    stack = [(e, (e,)) for e in entries if e in g]
+    missing = [e for e in entries if e not in g]
+    while stack:
+        q, path = stack.pop()
+        if q in seen:
+            continue
+        seen[q] = path
+        if q in cuts and q not in entries:
+            continue
+        for c in sorted(g.get(q, ())):
+            if c not in seen:
+                stack.append((c, path + (c,)))
+    hits = [(q, seen[q]) for q in sorted(seen) if q in forbidden]
+    return hits, missing, sorted(seen)
+
+
+NONDET_CALLS = {"id", "hash", "uuid4", "uuid1", "random", "randint", "choice", "shuffle", "now", "today", "time", "urandom", "getpid"}
+
+
+def nondet_scan(repo, funcs):
+    out = []
+    for q in funcs:
+        fi = repo.funcs[q]
+        for n in ast.walk(fi.node):
+            if isinstance(n, ast.Call):
+                f = n.func
+                name = f.id if isinstance(f, ast.Name) else (f.attr if isinstance(f, ast.Attribute) else None)
+                if name in NONDET_CALLS:
+                    out.append((q, n.lineno, ast.unparse(n)[:80]))
+    return sorted(set(out))
+
+
 def run_scans(repo, spec):
     """spec = {"writers": {field: [allowed qualnames]}, "leaks": {field: [[qualname, how-prefix], ...]}}
     -> list of dict(name, ok, detail)"""
@@ -206,6 +299,22 @@ def run_scans(repo, spec):
         extra = [(q, l, h) for (q, l, h) in lk[f] if not any(q == a[0] and h.startswith(a[1]) for a in allowed)]
         res.append({"name": "scan:no-leak:%s" % f, "ok": not extra, "found": lk[f],
                     "detail": "escapes of %s: %s%s" % (f, lk[f], ("; NOT among the recorded ones: %s" % extra) if extra else "")})
+    if spec.get("export_frame"):
+        ef = spec["export_frame"]
+        forbidden = set(ef.get("forbidden", [])) | {q for q in repo.funcs if q.split(".")[-1] in set(ef.get("forbidden_names", []))}
+        hits, missing, reached = reach_scan(repo, ef["entries"], forbidden, set(ef.get("cuts", [])))
+        allowed = {tuple(a) for a in ef.get("allowed", [])}
+        extra = [(q, " -> ".join(pth)) for q, pth in hits if (pth[0], q) not in allowed]
+        res.append({"name": "scan:export-frame", "ok": not extra and not missing, "found": [q for q, _ in hits],
+                    "detail": "%d functions reachable from %d export entry points; state-changing functions among them: %s%s%s" % (
+                        len(reached), len(ef["entries"]), [q for q, _ in hits],
+                        ("; NOT among the recorded ones: %s" % extra) if extra else "",
+                        ("; entry points missing from the tree: %s" % missing) if missing else "")})
+        nd = nondet_scan(repo, [q for q in reached if q in repo.funcs])
+        allowed_nd = {tuple(a) for a in ef.get("allowed_nondeterminism", [])}
+        extra_nd = [x for x in nd if (x[0], x[2]) not in allowed_nd]
+        res.append({"name": "scan:export-determinism", "ok": not extra_nd, "found": nd,
+                    "detail": "calls of id/hash/random/time/uuid in export-reachable code: %s%s" % (nd, ("; NOT among the recorded ones: %s" % extra_nd) if extra_nd else "")})
     if spec.get("fresh_stores"):
         fs = spec["fresh_stores"]
         st = stores_of(repo, fs["fields"], set(fs.get("nested", [])))
